@@ -62,7 +62,7 @@ def build(src, out, flags=(), std="c++20", opt="-O1", timeout=900, include_repo=
         out = out + "_san"
     if os.environ.get("VERIF_COVERAGE") and include_repo and "-fsyntax-only" not in flags:
         # binding coverage (tools/bindcov.py): which lines of the anchored headers do the drivers execute?
-        flags = list(flags) + ["--coverage", "-fprofile-update=atomic"]
+        flags = list(flags) + ["--coverage", "-fprofile-update=atomic", "-DVH_COVERAGE"]
         opt = "-O0"
     outp = os.path.join(workdir("bin"), out)
     cmd = ["g++", "-std=" + std, opt, "-w", "-I" + HARNESS]
